@@ -608,7 +608,7 @@ def file_seek(eng, f, off, whence=0):
                 off = c - base
                 break
         else:
-            raise Unsupported("symbolic seek beyond the modelled file")
+            off = n + 1 - base  # anywhere beyond the end: every later read returns nothing
     if whence == 0:
         p = off
     elif whence == 1:
@@ -811,6 +811,8 @@ def call_method(eng, obj, name, args, kw):
         from vf.pysym import ropes
 
         return ropes.call_method(eng, obj, name, args, kw)
+    if isinstance(obj, ModelRaise) and name == "with_traceback":
+        return obj
     if isinstance(obj, re.Pattern) and name in ("match", "fullmatch") and args and is_sym(args[0]):
         from vf.pysym import rxdom
 
@@ -1006,9 +1008,9 @@ def _range(eng, *args):
     if all(not is_sym(a) for a in args):
         return range(*args)
     if len(args) == 1:
-        return eng.sym_range(args[0])
+        return eng.lazy_range(args[0])
     if len(args) == 2 and not is_sym(args[0]):
-        return eng.sym_range(args[1], args[0])
+        return eng.lazy_range(args[1], args[0])
     raise Unsupported("range with symbolic start/step")
 
 
@@ -1252,6 +1254,8 @@ reg(binascii.unhexlify, lambda eng, s: SBytes(list(binascii.unhexlify(s))))
 reg(io.BytesIO, _bytesio)
 reg(int.from_bytes, lambda eng, b, byteorder="big", **k: from_bytes(eng, b, byteorder))
 reg(print, lambda eng, *a, **k: None)
+reg(sys.exc_info, lambda eng: (builtins.getattr(builtins.getattr(eng, "current_exc", None), "cls", None),
+                               builtins.getattr(eng, "current_exc", None), None))
 
 # ---- stat module (pure bit tests on the mode word)
 import stat as _stat
